@@ -455,6 +455,9 @@ def families(run: Run):
         yield "multi-part subscripts", G._dedup(G.multi_subscripts(quick=True))
         yield "operand sources x typed views", G.source_views(quick=True)
         yield "operand sources in if-expressions / select_with", G._dedup(G.source_selects(quick=True))
+        yield "select_with with aliased keys", G._dedup(G.select_aliases())
+        yield "iteration consumers over slice chains", G._dedup(G.iter_chains(quick=True))
+        yield "operations on constant pairs", G._dedup(G.const_pairs())
         # beyond the complete bound: a seed-chosen 1/150 stratum of the depth-2 family
         pick = run.seed % 150
         yield f"depth2 widths{{1,2}} stratum {pick}/150 (seed-chosen)", (
@@ -467,6 +470,9 @@ def families(run: Run):
         yield "multi-part subscripts", G._dedup(G.multi_subscripts(quick=False))
         yield "operand sources x typed views", G.source_views(quick=False)
         yield "operand sources in if-expressions / select_with", G._dedup(G.source_selects(quick=False))
+        yield "select_with with aliased keys", G._dedup(G.select_aliases())
+        yield "iteration consumers over slice chains", G._dedup(G.iter_chains(quick=False))
+        yield "operations on constant pairs", G._dedup(G.const_pairs())
         yield "depth2 widths{1,2}", G.depth2((1, 2))
 
 
